@@ -51,7 +51,10 @@ RULE = (
     "differ from the design point, and - linear systems - disciplines declaring io.set_linear_relationships() so that the "
     "formulations build their functions through the is_linear branches; in a quarter of the cases every design variable is "
     "integer-typed and MDF / DisciplinaryOpt are evaluated at the integer-dtype vectors that get_current_value() returns "
-    "or a user writes.  Every array returned by a function (value, Jacobian) is kept without copy while the functions are "
+    "or a user writes, and a DOE (CustomDOE) is run over IDF on that mixed integer / float space; a quarter of the systems "
+    "hold hinge terms max(x - 0.25, 0) of the design inputs in disciplines returning csr Jacobian blocks, so that blocks are "
+    "populated at some of the evaluated points and hold no stored entry at others (each formulation goes x, x + dx, x again "
+    "on the same function objects); couplings may lack (finite) bounds also when normalize_constraints is on.  Every array returned by a function (value, Jacobian) is kept without copy while the functions are "
     "evaluated at the other points and must still hold what it held when it was returned.  Checked against the plain-numpy model: design-space contents and order of "
     "MDF / IDF / DisciplinaryOpt, IDF's rejection of a space lacking a coupling, values and Jacobians of objective and "
     "constraints of every formulation, IDF consistency constraints at y*(x) and at perturbed targets (with the "
@@ -71,8 +74,12 @@ ASSUMPTIONS = [
     "comparison tolerances: IDF / consistency values and Jacobians 1e-11 (1 + scale) (same operations as the model), "
     "MDF / DisciplinaryOpt values 1e-9 (1 + scale) and Jacobians 1e-8 (1 + scale) (MDA converged to 1e-13 relative to "
     "the initial residual, then a linear solve of condition <= 1.86), consistency at the exact solution <= 1e-10",
-    "coupling bounds are finite with ub - lb >= 120 whenever normalize_constraints is on (|ub-lb| is the documented "
-    "normalisation factor; infinite or zero widths are outside the domain); the coupled solution lies inside them",
+    "coupling bounds, when given, have ub - lb >= 120 (|ub-lb| is the documented normalisation factor; zero widths are "
+    "outside the domain) and hold the coupled solution; for a coupling without finite bounds and normalize_constraints on, "
+    "the scale of its consistency constraint is undocumented: it must vanish at y*(x) and be non-zero with the sign of "
+    "y_out - y_t at inconsistent targets (ledger C17-F6 while open)",
+    "hinge terms only involve design inputs, with their kink at 0.25, never a generated design value: the systems stay "
+    "smooth contractions in the couplings",
     "DisciplinaryOpt is given the disciplines of an acyclic system in a topological order (it documents an ORDERED "
     "list of disciplines and chains them in list order)",
     "design variables read by no discipline may be dropped or kept by a formulation (MDF documents that it drops "
